@@ -20,7 +20,7 @@
 #include <memory>
 #include <tuple>
 #include <typeinfo>
-#include <unordered_set>
+#include <algorithm>
 
 using u64 = std::uint64_t;
 
@@ -274,9 +274,23 @@ C15_SETS(C15_X)
 struct Runner
 {
     SetOps d;
-    std::unordered_set<u64> seen;
-    long nontrivial = 0;
+    std::vector<u64> seen; // every value run; de-duplicated when counting
     long cases = 0;
+
+    // distinct (choice, v, b) with choice index >= 1 and some bit of v set other than the choice's
+    long count_nontrivial()
+    {
+        std::sort(seen.begin(), seen.end());
+        seen.erase(std::unique(seen.begin(), seen.end()), seen.end());
+        long n = 0;
+        for(u64 v : seen)
+            for(int k = 0; k < nchoices(); k++)
+            {
+                const int i = index_of(k);
+                if(i >= 1 && (v & ~(u64(1) << i)) != 0) n += 2;
+            }
+        return n;
+    }
 
     explicit Runner(SetOps ops) : d(std::move(ops)) {}
     const char* name() const { return d.name; }
@@ -290,14 +304,7 @@ struct Runner
     {
         v &= ref_mask(width());
         const int n = nchoices();
-        if(seen.insert(v).second)
-        {
-            for(int k = 0; k < n; k++)
-            {
-                const int i = index_of(k);
-                if(i >= 1 && (v & ~(u64(1) << i)) != 0) nontrivial += 2;
-            }
-        }
+        seen.push_back(v);
         check_value(v);
         for(int k = 0; k < n; k++)
             for(int b = 0; b < 2; b++)
@@ -685,7 +692,7 @@ int main(int argc, char** argv)
     }
 
     long nontrivial = 0;
-    for(auto& r : rs) nontrivial += r->nontrivial;
+    for(auto& r : rs) nontrivial += r->count_nontrivial();
     printf("STAT nontrivial %ld\n", nontrivial);
     return rep.finish();
 }
